@@ -3,7 +3,8 @@ from vlib import mprop
 from vlib.mirsmt import c11
 
 ENCODED = ["MachineState::trail (TrailRef::Ref arms: HeapCell, StackCell, AttrVar)",
-           "Machine::unwind_trail (TrailedHeapVar, TrailedStackVar, TrailedAttrVar arms)"]
+           "Machine::unwind_trail (TrailedHeapVar, TrailedStackVar, TrailedAttrVar arms)",
+           "MachineState::bind, MachineState::bind_attr_var (every cell store is trailed)"]
 ASSUME = ["hb / b are the heap top / choice point recorded by the newest choice point (their "
           "maintenance by try/retry/trust is outside)",
           "sufficiency: h older than the newest choice point => an entry of the cell's kind with "
@@ -11,7 +12,7 @@ ASSUME = ["hb / b are the heap top / choice point recorded by the newest choice 
           "modular-bitfield accessors (get_value, get_tag, build_with) are uninterpreted"]
 BOUNDS = "every h, hb, b as 64-bit words; acyclic regions (one loop iteration of unwind_trail)"
 OUTSIDE = ("restoration of hb/b/tr by choice points, attribute-list links, bb_b_put entries, "
-           "MachineState::bind's call sites, and all Prolog-level constructs named in the statement")
+           "callers of bind, and all Prolog-level constructs named in the statement")
 
 
 def run(tier):
